@@ -427,20 +427,45 @@ def _flatten(value, depth=0):
 
 def _excerpt(text, secret, all_secrets):
     idx = text.find(secret)
-    chunk = text[max(0, idx - 90): idx + len(secret) + 60]
+    start = max(0, idx - 110)
+    if start:
+        cut = text.find(' ', start, idx)
+        start = cut + 1 if cut != -1 else start
+    chunk = text[start: idx + len(secret) + 60]
     for sec in sorted(set(all_secrets), key=len, reverse=True):
         if sec:
             chunk = chunk.replace(sec, '<SECRET>')
     return chunk
 
 
+def _escaped_variants(value):
+    """The same secret as it shows up inside a repr() / JSON / bytes-repr
+    rendering (sinks such as exc.__repr__, job.as_json(), '%s' % bytes)."""
+    out = []
+    back = value.replace('\\', '\\\\')
+    for cand in (repr(value)[1:-1],
+                 back.replace("'", "\\'"),
+                 back.replace('"', '\\"'),
+                 json.dumps(value)[1:-1],
+                 json.dumps(value, ensure_ascii=False)[1:-1],
+                 repr(value.encode('utf-8'))[2:-1],
+                 repr(repr(value)[1:-1])[1:-1]):
+        if cand != value and cand not in out:
+            out.append(cand)
+    return out
+
+
 def _scan(sinks, secrets, path):
-    """sinks: [(clause, where, text)], secrets: {form: value}.
+    """sinks: [(clause, where, text)], secrets: [(form, value)] (a form may
+    have several values, e.g. several JWTs).
     Returns (n_checks per clause, failures, saw_mask)."""
     checks = {c: 0 for c in CLAUSES}
     fails = []
     saw_mask = False
-    values = list(secrets.values())
+    secrets = [(f, v) for f, v in secrets if v]
+    secrets = secrets + [(f + ' [escaped rendering]', e)
+                         for f, v in secrets for e in _escaped_variants(v)]
+    values = [v for _, v in secrets]
     for clause, where, text in sinks:
         if text is None:
             continue
@@ -449,18 +474,20 @@ def _scan(sinks, secrets, path):
         checks[clause] += 1
         if MASK in text:
             saw_mask = True
-        found = [form for form, sec in secrets.items() if sec and sec in text]
+        found = [(f, v) for f, v in secrets if v in text]
         # a longer form containing a shorter one: report the longest only
-        keep = [f for f in found
-                if not any(g != f and secrets[f] in secrets[g]
-                           and secrets[f] != secrets[g] for g in found)]
-        for form in keep:
+        keep = {}
+        for form, val in found:
+            if any(val in other and val != other for _, other in found):
+                continue
+            keep.setdefault(form, val)
+        for form, val in keep.items():
             fails.append({
                 'clause': clause,
                 'signature': '%s | %s | path=%s | form=%s' % (
                     clause, where, path, form),
                 'expected': EXPECTED,
-                'got': _excerpt(text, secrets[form], values),
+                'got': _excerpt(text, val, values),
             })
     return checks, fails, saw_mask
 
@@ -504,7 +531,7 @@ def _make_berte(git_repo, action):
     return obj
 
 
-def _drive(level, git_repo, action):
+def _drive(level, git_repo, action, with_return=True):
     """Run action as a job through the real process_task and collect every
     sink.  Returns (sinks, exception or None, berte)."""
     sinks = []
@@ -543,11 +570,11 @@ def _drive(level, git_repo, action):
             sinks.append((clause, who + '.__repr__', repr(cur)))
             sinks.append((clause, who + '.args', _flatten(list(cur.args))))
         sinks.append(('exception_chain',
-                      'traceback.format_exception(%s) [what LOG.exception '
-                      'prints]' % type(exc).__name__,
+                      'traceback.format_exception(top) [what '
+                      'LOG.exception prints]',
                       ''.join(traceback.format_exception(
                           type(exc), exc, exc.__traceback__))))
-    if berte._c16_returned:
+    if berte._c16_returned and with_return:
         sinks.append(('return_value', 'value returned to the job handler',
                       _flatten(berte._c16_value)))
     return sinks, (berte._c16_exc or outer), berte
@@ -636,14 +663,13 @@ def _run_case_a(case):
         shutil.rmtree(home, ignore_errors=True)
     observed = _observed_path(exc, berte._c16_returned)
     if retry:
-        observed += '+retry(%d sleeps)' % len(sleeps)
+        observed += '+retry'
+    if case.get('print') == 'decoded':
+        observed += '[git echoes DECODED password]'
     if password == quoted:
-        secrets = {'raw==quoted': password}
+        secrets = [('raw==quoted', password)]
     else:
-        secrets = {'raw': password, 'quoted': quoted}
-        esc = repr(password.encode('utf-8'))[2:-1]
-        if esc != password and case.get('print') == 'decoded':
-            secrets['raw(bytes-repr escaped)'] = esc
+        secrets = [('raw', password), ('quoted', quoted)]
     checks, fails, saw_mask = _scan(sinks, secrets, observed)
     return {
         'observed': observed,
@@ -689,9 +715,12 @@ class _Handler(http.server.BaseHTTPRequestHandler):
         body = spec.get('body', '')
         if spec.get('echo'):
             # a chatty server / proxy echoing the credentials it received
-            body = json.dumps({'message': 'Bad credentials',
-                               'authorization_received': auth,
-                               'orig': body})
+            try:
+                doc = json.loads(body)
+                doc['authorization_received'] = auth
+                body = json.dumps(doc)
+            except (ValueError, TypeError):
+                body = '%s authorization_received=%s' % (body, auth)
         data = body.encode('utf-8')
         self.send_response(spec['status'])
         self.send_header('Content-Type', 'application/json')
@@ -799,8 +828,9 @@ def _run_case_b(case):
         token_script, api_script = APP_SCRIPTS[case['script']]
     else:
         token_script, api_script = [_err(404)], PW_SCRIPTS[case['script']]
-        if case['flow'] == 'pw:get_repository' and case['script'] == 'ok':
-            api_script = [{'status': 200, 'body': _REPO_JSON}]
+        if case['flow'] == 'pw:get_repository':
+            api_script = [{'status': 200, 'body': _REPO_JSON}
+                          if spec is _OKJSON else spec for spec in api_script]
     scen = {'token': [dict(s) for s in token_script],
             'api': [dict(s) for s in api_script], 'seen': []}
     srv['scenarios'][sid] = scen
@@ -822,7 +852,10 @@ def _run_case_b(case):
     try:
         gh_mod.Client._get_jwt = recording_get_jwt
         ghbase.time = SimpleNamespace(sleep=sleeps.append)
-        sinks, exc, berte = _drive(case['level'], git_repo, action)
+        # API payloads handed back to the job handler are not a sink of
+        # C16 (return_value is about the output of git commands)
+        sinks, exc, berte = _drive(case['level'], git_repo, action,
+                                   with_return=False)
     finally:
         gh_mod.Client._get_jwt = real_get_jwt
         ghbase.time = saved_time
@@ -830,26 +863,27 @@ def _run_case_b(case):
         srv['scenarios'].pop(sid, None)
         if git_repo.tmp_directory:
             shutil.rmtree(git_repo.tmp_directory, ignore_errors=True)
-    secrets = {}
+    secrets = []
     quoted = quote_plus(password)
     if kind == 'pw':
-        secrets['auth_header(token <password>)'] = 'token ' + password
-    secrets['password raw' if quoted != password
-            else 'password raw==quoted'] = password
+        secrets.append(('auth_header(token <password>)',
+                        'token ' + password))
+    secrets.append(('password raw' if quoted != password
+                    else 'password raw==quoted', password))
     if quoted != password:
-        secrets['password quoted'] = quoted
-    for idx, value in enumerate(dict.fromkeys(jwts)):
-        secrets['jwt#%d' % idx if idx else 'jwt'] = value
+        secrets.append(('password quoted', quoted))
+    for value in dict.fromkeys(jwts):
+        secrets.append(('jwt', value))
     if kind == 'app' and any(INSTALL_TOKEN in json.dumps(s)
                              for s in token_script):
-        secrets['installation_token'] = INSTALL_TOKEN
-    observed = '%s/%s->%s' % (
-        kind, case['script'],
-        'ok' if exc is None else '<-'.join(
+        secrets.append(('installation_token', INSTALL_TOKEN))
+    # structural path: flow kind + outcome (the script name stays in case)
+    observed = '%s->%s' % (
+        kind, 'ok' if exc is None else '<-'.join(
             dict.fromkeys(type(c).__name__ for _, _, c in _exc_chain(exc))))
     checks, fails, _ = _scan(sinks, secrets, observed)
     on_wire = any(sec and any(sec in auth for _, _, auth in scen['seen'])
-                  for sec in secrets.values())
+                  for _, sec in secrets)
     return {
         'observed': observed,
         'exception': None if exc is None else type(exc).__name__,
@@ -926,9 +960,9 @@ def _cases(tier):
     return out
 
 
-def _case_cost(case):
+def _case_cost(case, rank):
     return (len(case['password']), case['level'] != 'INFO',
-            json.dumps(case, sort_keys=True))
+            rank.get(json.dumps(case, sort_keys=True), 0))
 
 
 def run(tier: str = 'quick', seed: int = 0, jobs: int = 16) -> dict:
@@ -952,6 +986,7 @@ def run(tier: str = 'quick', seed: int = 0, jobs: int = 16) -> dict:
         finally:
             _teardown_env()
 
+    rank = {json.dumps(c, sort_keys=True): i for i, c in enumerate(cases)}
     clause_counts = {c: {'sink_checks': 0, 'failed': 0} for c in CLAUSES}
     sigs = {}
     best = {}
@@ -975,7 +1010,7 @@ def run(tier: str = 'quick', seed: int = 0, jobs: int = 16) -> dict:
             sig = fail['signature']
             sigs[sig] = sigs.get(sig, 0) + 1
             entry = dict(fail, case=res['case'])
-            cost = _case_cost(res['case'])
+            cost = _case_cost(res['case'], rank)
             if sig not in best or cost < best[sig][0]:
                 best[sig] = (cost, entry)
         if not res['fails'] and res['nontrivial']:
